@@ -45,7 +45,7 @@ ElemOk(ev, i) ==
                   /\ DLe(DAbs(DSub(DInt(n), y)), DAdd(DPow2(-1), DPow2(ev.ovh - 50)))
                   /\ DLe(DAbs(DSub(r, DSub(y, DInt(n)))), DPow2(ev.ovh - 50))
 
-EventOk(ev) == Len(ev.r) = Len(ev.x) /\ \A i \in 1 .. Len(ev.x) : ElemOk(ev, i)
+EventOk(ev) == ev.e = "Conv" /\ Len(ev.r) = Len(ev.x) /\ \A i \in 1 .. Len(ev.x) : ElemOk(ev, i)
 
 Init == l = 1 /\ bad = {}
 Next == l <= Len(Tr) /\ l' = l + 1 /\ bad' = IF EventOk(Tr[l]) THEN bad ELSE bad \cup {l}
